@@ -2,7 +2,8 @@ reg("C08",
     level="model_checking",
     technique="explicit-state BFS to fixpoint over the real bluetoe::server<max_mtu_size<M>> + connection_data (byte image = state) with Exchange MTU requests as events; "
               "after every transition 22 probe requests (long read, read blob at 7 offsets, read by type, find information, read multiple, read by group type, "
-              "find by type value, error response, notification and indication through l2cap_output) are run on the reached state and compared with the reference "
+              "find by type value, error response, notification and indication through l2cap_output) and up to 32 requests that are longer than the negotiated MTU (mtu+1 and 512 "
+              "octets; 16 request types incl. Prepare Write, Write, Read Multiple, Exchange MTU: the answer has to stay within the MTU) are run on the reached state and compared with the reference "
               "mtu = min(server max, last valid client MTU); ASan with exact-size heap blocks for every request and 512 byte response blocks",
     rule="state = byte image of server + connection + bound values + reference mtu; transition = one Exchange MTU request through l2cap_input; evaluation = one ATT "
          "request/l2cap_output call; classes = (client value class x accepted/rejected x mtu grows/shrinks/unchanged), error code of rejections, fill state of list responses",
@@ -17,6 +18,7 @@ reg("C08",
                  "rejection of an invalid exchange = any Error Response to opcode 0x02 (tests pin code 0x04; the code is recorded as class only)",
                  "l2cap_output is probed with out_size = server maximum (what bluetoe's l2cap<> layer passes) and with 512; a notification/indication longer than the negotiated "
                  "MTU is a violation for either buffer size because the statement names notifications and indications",
+                 "the servers carry shared_write_queue<600> so that an over-long Prepare Write Request is accepted; its response has to be the request cut at the MTU",
                  "list responses (read by type of declarations, find information) only have to be well formed and <= mtu; maximal packing is recorded as class, not demanded",
                  "the attribute table has 38 attributes, so Find Information fills the PDU only for mtu <= 154; longer MTUs are filled by the long read / notification probes",
                  "a probe failure does not stop the exploration behind it (state is restored after every probe); only its first (shortest) occurrence is reported"],
